@@ -1,6 +1,7 @@
 package hx
 
 import (
+	"math"
 	"math/big"
 
 	"verifharness/oracle"
@@ -132,8 +133,15 @@ func (r *RNG) LeadExp() int64 {
 		return int64(r.Range(-40, 40))
 	case k < 70:
 		return int64(r.Range(-5000, 5000))
-	case k < 80:
+	case k < 78:
 		return int64(r.Range(-100000000, 100000000))
+	case k < 80:
+		// where the exponent's own digit count changes: +-10^j and its neighbours
+		e := int64(math.Pow10(r.Range(1, 9))) + int64(r.Range(-2, 2))
+		if r.Bool() {
+			e = -e
+		}
+		return e
 	case k < 90:
 		return oracle.MaxExp - int64(r.Intn(64))
 	default:
